@@ -111,7 +111,7 @@ def h_keyed(ct_len, integ_id, inner_type=None, min_pad=0):
 
 def build_instances(tier):
     inst = []
-    unit_n = {'quick': (0, 1, 3, 4, 8, 12), 'thorough': (0, 1, 2, 3, 4, 5, 7, 8, 9, 12, 16, 20)}[tier]
+    unit_n = {'quick': (0, 1, 3, 4, 8, 12), 'thorough': (0, 1, 2, 3, 4, 5, 7, 8, 9, 12, 16)}[tier]
     for u in UNITS:
         for n in unit_n:
             if u in ('Proposal', 'PayloadSA', 'PayloadTSi') and n > 16 and tier == 'quick':
@@ -123,14 +123,14 @@ def build_instances(tier):
         inst.append(Instance(f'Message.parse n={n}', h_msg, (n, None), native=n_msg, engine_kw={'max_ticks': 400 + 40 * n}))
     inst.append(Instance('Message.parse header_only n=28', h_msg, (28, None, True), native=n_msg))
     inst.append(Instance('Message.parse header_only n=27', h_msg, (27, None, True), native=n_msg))
-    for n in {'quick': (32,), 'thorough': (32, 33, 36)}[tier]:
+    for n in {'quick': (32,), 'thorough': (32,)}[tier]:
         for ft in known + [0, 'other']:
             inst.append(Instance(f'Message.parse n={n} first={ft}', h_msg, (n, ft), native=n_msg,
                                  engine_kw={'max_ticks': 400 + 40 * n}))
-    for ct in {'quick': (16,), 'thorough': (16, 32)}[tier]:
+    for ct in (16,):
         for integ in {'quick': (12,), 'thorough': (2, 12, 14)}[tier]:
             for it in known + [0, 'other']:
-                inst.append(Instance(f'keyed Message.parse ct={ct} integ={integ} inner={it}', h_keyed, (ct, integ, it, {'quick': 8, 'thorough': 4}[tier]),
+                inst.append(Instance(f'keyed Message.parse ct={ct} integ={integ} inner={it}', h_keyed, (ct, integ, it, 8),
                                      engine_kw={'max_ticks': 2000},
                                      must_reach=[('checksum rejected', lambda o: o[0] == 'proto')]))
     # biggest first
@@ -201,10 +201,10 @@ def main(tier, seed):
                                           m.PayloadDELETE.parse, m.PayloadNOTIFY.parse, m.PayloadID.parse,
                                           m.PayloadAUTH.parse, m.PayloadKE.parse),
                 bounds={'unit buffers': 'every byte string of the listed lengths per payload class',
-                        'datagram': 'every byte string of length 0,27..32 (thorough: ..36, 33); longer datagrams are '
+                        'datagram': 'every byte string of length 0,27..32 (thorough: also 1,16,30); longer datagrams are '
                                     'outside the claim except through the per-unit harnesses',
-                        'keyed': 'every (key, IV, ciphertext, ICV) with 16 (thorough: 32) bytes of ciphertext, 3 integrity '
-                                 'algorithms, the decrypted body being arbitrary with Pad Length >= 8 (thorough: >= 4), i.e. inner payload chains of up to 7 (11) bytes',
+                        'keyed': 'every (key, IV, ciphertext, ICV) with 16 bytes of ciphertext, 1 (thorough: 3) integrity '
+                                 'algorithms, the decrypted body being arbitrary with Pad Length >= 8, i.e. inner payload chains of up to 7 bytes',
                         'step budget': '400 + 40 * len(buffer) engine ticks per path (struct calls + decisions); exceeding '
                                        'it is reported as non-termination/super-linear work',
                         'range cap': 'PayloadDELETE num_spis > 4 is cut (the loop is bounded by the 16-bit field, not by '
